@@ -15,6 +15,14 @@ def impl_history(case):
             c.append(PauliString(pauli_str=st[1]))
         elif st[0] == "remove":
             c.remove(PauliString(pauli_str=st[1]))
+        elif st[0] == "replace":
+            c.replace(PauliString(pauli_str=st[1]), PauliString(pauli_str=st[2]))
+        elif st[0] == "contract":
+            c.contract(PauliString(pauli_str=st[1]), PauliString(pauli_str=st[2]))
+        elif st[0] == "insert":
+            c.insert(st[1], PauliString(pauli_str=st[2]))
+        elif st[0] == "del":
+            del c[st[1]]
         rec = {"strings": [str(s) for s in c.get()]}
         try:
             rec["commutants"] = [str(s) for s in c.get_commutants()]
@@ -131,12 +139,25 @@ def main():
         steps = [["query"]]
         cur = list(dict.fromkeys(g))
         for _ in range(ck.rng.randint(1, 3)):
-            if ck.rng.random() < 0.7 or len(cur) < 2:
+            r = ck.rng.random()
+            if r < 0.35 or len(cur) < 2:
                 x = G.uniform(ck.rng, n); steps.append(["append", x])
                 if x not in cur:
                     cur.append(x)
-            else:
+            elif r < 0.5:
                 x = ck.rng.choice(cur); steps.append(["remove", x]); cur.remove(x)
+            elif r < 0.7:
+                x = ck.rng.choice(cur); y = G.uniform(ck.rng, n); steps.append(["replace", x, y]); cur[cur.index(x)] = y
+            elif r < 0.85:
+                pairs = [(a, b) for a in cur for b in cur if a != b and G.anti(a, b)]
+                if pairs:
+                    a, b = ck.rng.choice(pairs); steps.append(["contract", a, b]); cur[cur.index(a)] = G.mul(a, b)
+            elif r < 0.93:
+                x = G.uniform(ck.rng, n)
+                if x not in cur:
+                    steps.append(["insert", 0, x]); cur.insert(0, x)
+            else:
+                steps.append(["del", 0]); cur.pop(0)
         hist.append({"op": "history", "gens": g, "steps": steps, "n": n})
     hres = ck.impl("c14", hist, per_case_s=300)
     hreq, hmap = [], []
